@@ -177,6 +177,31 @@ def permuted_outputs_pair(rng):
     return flat, nested, {"renames": [pi], "S": [n["name"] for n in inner_nodes], "permuted_outputs": True}
 
 
+def two_level_binding_pair(rng):
+    """The same input bound on the inner graph AND on the graph containing the wrapper: the enclosing graph's
+    binding wins (as bind(k=inner).bind(k=outer) does on the flat graph), at depth 1-2, with or without a renamed
+    wrapper input and a sibling consumer outside."""
+    ren = rng.random() < 0.5
+    kx = "k_ext" if ren else "k"
+    inner_nodes = [{"k": "fn", "name": "f0", "fid": "f0", "params": [{"n": "k"}, {"n": "x"}], "outs": ["o0"]}]
+    if rng.random() < 0.5:
+        inner_nodes.append({"k": "fn", "name": "f1", "fid": "f1", "params": [{"n": "o0"}, {"n": "k"}], "outs": ["o1"]})
+    outside = [{"k": "fn", "name": "g", "fid": "g", "params": [{"n": kx}, {"n": "o0"}], "outs": ["og"]}] if rng.random() < 0.6 else []
+    flat_nodes = copy.deepcopy(inner_nodes)
+    if ren:
+        for ns in flat_nodes:
+            ns["rename_in"] = [{"k": kx}]
+    flat = {"name": "g", "nodes": flat_nodes + copy.deepcopy(outside), "bind": {kx: "bound:outer"}}
+    sub = {"k": "sub", "name": "box", "prog": {"name": "box", "nodes": copy.deepcopy(inner_nodes), "bind": {"k": "bound:inner"}}}
+    if ren:
+        sub["rename_in"] = [{"k": kx}]
+    cur = sub
+    if rng.random() < 0.4:
+        cur = {"k": "sub", "name": "box2", "prog": {"name": "box2", "nodes": [sub], "bind": ({kx: "bound:middle"} if rng.random() < 0.5 else {})}}
+    nested = {"name": "g", "nodes": [cur] + copy.deepcopy(outside), "bind": {kx: "bound:outer"}}
+    return flat, nested, {"inner_bind": True, "S": [n["name"] for n in inner_nodes], "two_level_binding": True}
+
+
 def mutable_default_pair(rng):
     """Flat DAG with 1-2 nodes that mutate a default-valued mutable argument in place, and the same program
     with those nodes wrapped (depth 1-2, optionally with a renamed wrapper input; sometimes two wrappers around
@@ -254,6 +279,12 @@ def run(ctx):
             ok = compare_pair(ctx, A, B, info, "permuted-outputs")
             ctx.obs["permuted_output_pairs"] += 1
             ctx.case({"s": gen.shape_of(B), "perm": True}, ok)
+            continue
+        if i % 12 == 9:
+            A, B, info = two_level_binding_pair(rng)
+            ok = compare_pair(ctx, A, B, info, "two-level-binding")
+            ctx.obs["two_level_binding_pairs"] += 1
+            ctx.case({"s": gen.shape_of(B), "bind2": True}, ok)
             continue
         if i % 6 == 5:
             A, B, src = mutable_default_pair(rng)
